@@ -396,6 +396,9 @@ async fn loop_handler(
     let (parts, body) = req.into_parts();
     let limit: u64 = parts.headers.get("x-limit").and_then(|v| v.to_str().ok()).and_then(|v| v.parse().ok()).unwrap_or(0);
     let head: RequestHead = parts.into();
+    if std::env::var("VERIF_DEBUG").is_ok() {
+        eprintln!("debug: headers seen by the handler {:?}", head.headers);
+    }
     let r = BufferedBody::extract(&head, RawIncomingBody::from(body), BodySizeLimit::Enabled { max_size: limit.bytes() }).await;
     let text = match r {
         Ok(b) => format!("ok {} {}", b.bytes.len(), hex(&b.bytes)),
@@ -416,6 +419,31 @@ fn hex(b: &[u8]) -> String {
 
 fn unhex(s: &str) -> Vec<u8> {
     (0..s.len() / 2).map(|i| u8::from_str_radix(&s[2 * i..2 * i + 2], 16).unwrap_or(0)).collect()
+}
+
+/// The same handler behind hyper's plain HTTP/1 connection driver (one task per connection).
+fn raw_hyper_addr() -> std::net::SocketAddr {
+    static ADDR: std::sync::OnceLock<std::net::SocketAddr> = std::sync::OnceLock::new();
+    *ADDR.get_or_init(|| {
+        let rt: &'static tokio::runtime::Runtime = Box::leak(Box::new(
+            tokio::runtime::Builder::new_multi_thread().worker_threads(2).enable_all().build().unwrap(),
+        ));
+        let listener = rt.block_on(async { tokio::net::TcpListener::bind("127.0.0.1:0").await.unwrap() });
+        let addr = listener.local_addr().unwrap();
+        rt.spawn(async move {
+            loop {
+                let Ok((stream, _)) = listener.accept().await else { continue };
+                tokio::spawn(async move {
+                    let service = hyper::service::service_fn(|req: hyper::Request<hyper::body::Incoming>| async move {
+                        let resp: hyper::Response<pavex::response::ResponseBody> = loop_handler(req, None, ()).await.into();
+                        Ok::<_, std::convert::Infallible>(resp)
+                    });
+                    let _ = hyper::server::conn::http1::Builder::new().serve_connection(hyper_util::rt::TokioIo::new(stream), service).await;
+                });
+            }
+        });
+        addr
+    })
 }
 
 fn server_addr() -> std::net::SocketAddr {
@@ -450,6 +478,10 @@ pub struct WireCase {
     /// how the chunked transfer coding is spelled in the request head (all of these mean "chunked" to an HTTP/1.1 server)
     #[serde(default)]
     pub te_spelling: u8,
+    /// the extractor sits behind hyper's own HTTP/1 connection driver (`hyper::server::conn::http1`) instead of
+    /// `pavex::server::Server`: there a Content-Length header that precedes Transfer-Encoding reaches the application
+    #[serde(default)]
+    pub raw_hyper: bool,
 }
 
 const TE_SPELLINGS: &[&str] = &[
@@ -533,7 +565,7 @@ fn write_chunk(s: &mut std::net::TcpStream, chunked: bool, ch: &[u8]) -> std::io
 
 pub fn wire_oracle(c: &WireCase) -> CaseResult {
     use std::io::{Read, Write};
-    let addr = server_addr();
+    let addr = if c.raw_hyper { raw_hyper_addr() } else { server_addr() };
     let plan = wire_plan(c, 0);
     let io = |e: std::io::Error| Fail::new("loopback:io", format!("{e}"));
     let mut s = std::net::TcpStream::connect(addr).map_err(io)?;
@@ -557,6 +589,9 @@ pub fn wire_oracle(c: &WireCase) -> CaseResult {
 }
 
 fn wire_judge(c: &WireCase, plan: &WirePlan, resp: String) -> CaseResult {
+    if std::env::var("VERIF_DEBUG").is_ok() {
+        eprintln!("debug: request head {:?}\ndebug: response {:?}", plan.reqhead, resp);
+    }
     let (reqhead, chunks, readings, body) = (&plan.reqhead, &plan.chunks, &plan.readings, &plan.body);
     let n = c.limit as u64;
     let mut info = CaseInfo::default();
@@ -763,8 +798,9 @@ pub fn wire_strategy() -> impl Strategy<Value = WireCase> {
             3 => cl_strategy().prop_map(|c| Some(Some(c))),
         ],
         prop_oneof![2 => Just(0u8), 3 => 1u8..7],
+        prop::bool::weighted(0.4),
     )
-        .prop_map(|((limit, total), cuts, chunked, te_spelling)| WireCase { limit, total, cuts, chunked, te_spelling })
+        .prop_map(|((limit, total), cuts, chunked, te_spelling, raw_hyper)| WireCase { limit, total, cuts, chunked, te_spelling, raw_hyper })
 }
 
 /// A chunked request with 2-6 chunks and a small limit (bodies around and above it).
@@ -775,11 +811,12 @@ fn wire_pair_member() -> impl Strategy<Value = WireCase> {
         cuts,
         chunked: Some(None),
         te_spelling: (k as u8 + limit as u8) % 7,
+        raw_hyper: false,
     })
 }
 
 pub fn main(mut chk: Check) -> ! {
-    chk.ev.rule = "in-process (hook H1): limit N from {0,1,2,7,64,1000,8192} or random, body length around {0,N-1,N,N+1,N+2,2N,3N+5} or random, split into 1-12 data frames plus empty frames/trailers/an injected stream error, Content-Length in {absent, truthful, smaller, larger<=N, larger>N, 2^64, 10 kinds of garbage}, optionally followed by JsonBody/UrlEncodedBody extraction. loopback: the real BufferedBody::extract behind pavex::server::Server; raw TCP client with Content-Length framing or chunked framing (chosen chunk sizes), optionally with an extra (lying) Content-Length header before Transfer-Encoding, the chunked coding spelled in 7 ways (letter case, `gzip, chunked`, two header lines, no space). Oracle: Ok(b) => len(b)<=N and b == bytes sent; size-limit error => sent>N or a plausible reading of the header >N; within-limit bodies with harmless headers must be accepted; no other error unless the stream failed. non-trivial = length in {N, N+1}, or >=3 frames of an over-limit body, or a Content-Length that is not absent/truthful; distinct = distinct serialised case".into();
+    chk.ev.rule = "in-process (hook H1): limit N from {0,1,2,7,64,1000,8192} or random, body length around {0,N-1,N,N+1,N+2,2N,3N+5} or random, split into 1-12 data frames plus empty frames/trailers/an injected stream error, Content-Length in {absent, truthful, smaller, larger<=N, larger>N, 2^64, 10 kinds of garbage}, optionally followed by JsonBody/UrlEncodedBody extraction. loopback: the real BufferedBody::extract behind pavex::server::Server; raw TCP client with Content-Length framing or chunked framing (chosen chunk sizes), optionally with an extra (lying) Content-Length header before Transfer-Encoding, the chunked coding spelled in 7 ways (letter case, `gzip, chunked`, two header lines, no space), behind pavex::server::Server or behind hyper's plain HTTP/1 connection driver (where a Content-Length that precedes Transfer-Encoding reaches the extractor). Oracle: Ok(b) => len(b)<=N and b == bytes sent; size-limit error => sent>N or a plausible reading of the header >N; within-limit bodies with harmless headers must be accepted; no other error unless the stream failed. non-trivial = length in {N, N+1}, or >=3 frames of an over-limit body, or a Content-Length that is not absent/truthful; distinct = distinct serialised case".into();
     chk.ev.assume("for malformed Content-Length values every numeric reading a lenient parser could make is considered 'declared' (rejecting on it is allowed, never required)");
     chk.ev.assume("loopback: when hyper itself rejects a request (conflicting framing headers) nothing reaches the extractor and the case is only classified");
     if let Some(p) = chk.settings.replay.clone() {
